@@ -110,7 +110,7 @@ class Hub:
         here; the driver decides who runs next (spec -> code replay of a TLC schedule)."""
         if self.scripted is not None and self.current is not None and \
                 getattr(self.current, 'proc', None) is not None and \
-                (rec['q'] is self.scripted or rec['q'] == 'ws') and \
+                (rec['q'] is self.scripted or rec['q'] in getattr(self, 'script_kinds', ('ws',))) and \
                 rec['op'] not in getattr(self, 'script_skip', ('task_done',)):
             self.yield_now()
 
@@ -255,10 +255,19 @@ class Thread:
     def start(self):
         self.task = _hub.spawn(self._target, *self._args, name=self.name or getattr(
             self._target, '__qualname__', None), **self._kwargs)
-        _hub.yield_point()
+        if not getattr(_hub, 'no_start_yield', False):
+            _hub.yield_point()
 
     def join(self, timeout=None):
         t = self.task
+        lg = _hub.primlog
+        if lg is not None and getattr(_hub, 'log_joins', False) and \
+                getattr(_hub.current, 'proc', None) is not None:
+            # L2 (polling client): the call of Thread.join() is a primitive of its own
+            rec = {'t': _hub.current.proc, 'op': 'tjoin_enter', 'item': '', 'q': 'thr'}
+            lg.append(rec)
+            _hub.after_log(rec)
+            _hub.yield_point()
         if t is None or t.done:
             return
         t.joiners.append(_hub.current)
